@@ -396,6 +396,9 @@ def _run_aio(rec, server, reads, datagram):
                 rec.cur_dest = sender
                 h.datagram_received(data, addr_of(sender))
             else:
+                if isinstance(r, tuple):          # (bytes, "burst"): the next read arrives before the handler task runs
+                    burst = len(r) > 1 and r[1] == "burst"
+                    r = r[0]
                 h.data_received(r)
             if burst:
                 continue
